@@ -153,6 +153,17 @@ func genC08(ctx *Ctx) {
 				switch {
 				case up == "DATE" || up == "TIMESPAN" || up == "CHOOSE" && i == 0:
 					args[i] = pick(small)
+					if up == "DATE" && i == 6 {
+						args[i] = variants.VariantFromInteger(1 + ctx.Rnd.Intn(999999999))
+					}
+				case up == "DAYOFWEEK" && ctx.Rnd.Intn(3) > 0:
+					var dts []*variants.Variant
+					for _, v := range pool {
+						if v.Type() == variants.DateTime {
+							dts = append(dts, v)
+						}
+					}
+					args[i] = pick(dts)
 				case up == "CONTAINS" || up == "EMPTY" || up == "ARRAY" || up == "IF" || ctx.Rnd.Intn(4) == 0:
 					args[i] = pick(pool)
 				default:
@@ -289,6 +300,24 @@ func c08Denotes(up string, args []*variants.Variant, res *variants.Variant, m va
 		for i, a := range args {
 			if sx.Text(valSX(res.GetByIndex(i))) != sx.Text(valSX(a)) {
 				return fmt.Sprintf("Array element %d differs from argument %d", i, i)
+			}
+		}
+	case "DAYOFWEEK":
+		if args[0].Type() == variants.DateTime && (res.Type() != variants.Integer || res.AsInteger() != int(args[0].AsDateTime().Weekday())) {
+			return fmt.Sprintf("DayOfWeek returned %s for a %s", sx.Text(valSX(res)), args[0].AsDateTime().Weekday())
+		}
+	case "DATE":
+		if len(args) >= 2 {
+			d := []int{0, 1, 1, 0, 0, 0, 0}
+			for i, a := range args {
+				if a.Type() != variants.Integer {
+					return ""
+				}
+				d[i] = a.AsInteger()
+			}
+			want := time.Date(d[0], time.Month(d[1]), d[2], d[3], d[4], d[5], d[6], time.Local)
+			if res.Type() != variants.DateTime || !res.AsDateTime().Equal(want) {
+				return fmt.Sprintf("Date(%v) returned %s, the date those components denote is %s", d[:len(args)], sx.Text(valSX(res)), want)
 			}
 		}
 	case "IF":
